@@ -24,6 +24,13 @@ def run(ctx):
     ctx.rule("R9", "the control-character pattern deletes controls only (a printable character deleted before parsing changes the resource)")
     from .c02 import control_chars_language
     control_chars_language(ctx, "R9")
+    # what reads a scheme-less or protocol-relative url as having a protocol decides where its host starts
+    from .c20 import protocol_language
+    protocol_language(ctx, "R9p")
+    # both output modes denote the same resource: the mode table and the order rule of C02
+    from .c02 import mode_table, order_rule
+    order_rule(ctx, "R10")
+    mode_table(ctx, "R11")
 
 
 def component_flow(ctx, rule):
